@@ -33,6 +33,8 @@ def instance_text(c, idx, theorems):
 
 # instantiated theorem templates ("@" = instance name)
 TH_C01 = 'Definition C01_@ := C01_maximal_munch d_@ g_@ V_@ D_@ dfa_ok_@ sim_ok_@.'
+TH_C02 = 'Definition C02_@ := C02_error_span d_@ g_@ V_@ R_@ D_@ dfa_ok_@ sim_ok_@ exact_ok_@.'
+TH_C03 = 'Definition C03_@ := C03_tiling d_@ g_@ V_@ R_@ D_@ dfa_ok_@ sim_ok_@ exact_ok_@.'
 
 
 def kernel_certs(caps, theorems, tag):
